@@ -217,6 +217,14 @@ def equality_ok(obj, exp_dense, opd, ctx, opname):
     return ok
 
 
+def _library_accepts(obj):
+    try:
+        obj.validate(True)
+        return True
+    except Exception:
+        return False
+
+
 def check_result(obj, exp_dense, opd, ctx, opname, chosen_common=False, enqueue=True):
     """All invariants on a resulting state. Returns its key if clean.
 
@@ -225,11 +233,13 @@ def check_result(obj, exp_dense, opd, ctx, opname, chosen_common=False, enqueue=
     modelled at all (the independent reader rejects it)."""
     n0 = len(ctx.viol)
     f = ctx.focus  # the property being decided: invariants that can only report OTHER properties are skipped (None = all)
-    ok = dense_equal(obj, exp_dense, opd, ctx, opname)
+    ok = dense_ok = dense_equal(obj, exp_dense, opd, ctx, opname)
     if f in (None, "C07", "C15"):
         wf = wellformed(obj, exp_dense if ok else None, opd, ctx, opname)
         ok = wf and ok
-    if ok and f in (None, "C15"):
+    if f in (None, "C15") and dense_ok and (ok or _library_accepts(obj)):
+        # a result that stands for the right array and that the library's own validate() accepts must compare equal to its twin, whatever
+        # else C07 has to say about it (e.g. an entry without rows)
         ok = equality_ok(obj, exp_dense, opd, ctx, opname) and ok
     if ok and f in (None, "C15") and chosen_common and not most_frequent_ok(exp_dense, obj.common):
         ctx.v("C15", "%s:common-not-most-frequent" % opname, opd, "library chose common %r for dense %r" % (obj.common, exp_dense.tolist()))
